@@ -590,7 +590,7 @@ def bind_strategy(draw: Any) -> dict:
     binds = []
     for _ in range(n):
         shape = draw(st.sampled_from(["v4port", "v4bare", "v6port", "v6bare", "unix", "unix_rel",
-                                      "fd"]))
+                                      "fd", "v6bare_raw"]))
         host4 = "127.%d.%d.%d" % (draw(st.integers(0, 255)), draw(st.integers(0, 255)),
                                   draw(st.integers(1, 254)))
         port = draw(st.integers(20000, 60999))
@@ -629,6 +629,12 @@ def run_binds(case: dict) -> CaseInfo:
             elif sh == "v6bare":
                 strings.append("[::1]")
                 expect.append((socket.AF_INET6, ("::1", 8000)))
+            elif sh == "v6bare_raw":
+                # a bare host that is an IPv6 literal without brackets whose last group is not a
+                # number (so it cannot be taken for a port): here a v4-mapped loopback address
+                host = "::ffff:" + b["host4"]
+                strings.append(host)
+                expect.append((socket.AF_INET6, (host, 8000)))
             elif sh == "unix":
                 path = os.path.join(tmp, f"{i}-{b['name']}.sock")
                 if b.get("stale"):
@@ -670,11 +676,13 @@ def run_binds(case: dict) -> CaseInfo:
         except OSError as e:
             import errno
 
-            tcp = any(b["shape"] in ("v4port", "v4bare", "v6port", "v6bare")
+            tcp = any(b["shape"] in ("v4port", "v4bare", "v6port", "v6bare", "v6bare_raw")
                       for b in case["binds"])
             if e.errno in (errno.EADDRINUSE, errno.EADDRNOTAVAIL) and tcp:
                 raise Inconclusive(f"address unavailable in sandbox: {e}")
             raise Violation("bind_failed", f"{strings}: {e!r}")
+        except Exception as e:  # a well-formed bind string must not make socket creation raise
+            raise Violation("bind_rejected", f"{strings}: {e!r}")
         if want_type_error:
             raise Violation("fd_type_not_checked", f"{strings} accepted for type {type_}")
         if len(opened) != len(strings):
